@@ -206,6 +206,34 @@ def check(facts, rep, tier, cfg):
                     subs = [x for x in walk(r) if x.kind == "bin" and (x[1].startswith("Sub") or x[1].startswith("Mul"))]
                     if shared and not subs and any(const_eval(x) == 0 for x in walk(r) if x.kind == "const"):
                         ok = True
+                elif adds and lens and not pushes:
+                    # the frame's slice list is built by an order- and count-preserving iterator chain over the same parameter the
+                    # lengths are summed over:  bufs.iter().map(|b| wrap(b)).collect()
+                    ctor = [t for _, t in b.calls() if callee(t) and callee(t)["name"] == "new_push_vectored"]
+                    if ctor:
+                        v = strip(tr.operand(ctor[0]["args"][-1]))
+                        names = [x[6] for x in walk(v) if x.kind == "call"]
+                        keep = {"collect", "map", "iter", "into_iter", "copied", "cloned", "deref", "as_ref", "from_iter", "to_vec", "into", "from", "borrow"}
+                        src_len = strip(lens[0][3][0])
+                        shared = set(x for x in leaves(v) & leaves(src_len) if x.startswith("param:"))
+                        subs = [x for x in walk(r) if x.kind == "bin" and (x[1].startswith("Sub") or x[1].startswith("Mul"))]
+                        one_to_one = True
+                        for x in walk(v):
+                            if (x.kind == "agg" and x[1] == "closure") or x.kind == "closureconst":
+                                cdef = x[2] if x.kind == "agg" else x[1]
+                                cb = facts.by_dp.get(cdef) if isinstance(cdef, str) else None
+                                if cb is None:
+                                    one_to_one = False
+                                    continue
+                                ctr = Tracer(facts, cb)
+                                rv = ctr.local(0)
+                                cn = set(y[6] for y in walk(rv) if y.kind == "call")
+                                if not (cn <= {"deref", "as_ref", "borrow", "into", "from", "as_slice"}) or not any(y.kind == "param" for y in walk(rv)) \
+                                        or any(y.kind in ("bin", "index") for y in walk(rv)):
+                                    one_to_one = False
+                        if "collect" in names and set(names) <= keep and shared and not subs and one_to_one and \
+                                any(const_eval(x) == 0 for x in walk(r) if x.kind == "const"):
+                            ok = True
             (rep.ok if ok else rep.bad)("C02.R4", "poll_write_vectored-count", where, "returns the sum of len() over exactly the slices pushed" if ok else "poll_write_vectored's returned count is not the Add-accumulation of the lengths of the slices pushed into the frame")
     # ---- R5 window vs queue capacity (a window larger than the inbound queue makes the receiver drop frames)
     rep.rule("C02.R5", "the window advertised to the peer equals the inbound queue capacity; the send credit is the peer's window (= C03.R3/R4)")
